@@ -37,6 +37,7 @@ from harness.armi_env import armi_ready
 MODDIR = os.path.join(common.SPEC, "settings")
 ABS_NAMES = ("P", "Q", "R", "V", "Z")
 UNKNOWN_NAME = "verifNoSuchSetting"
+ADHOC_NAME, ADHOC_VALUE = "zzVerifAdHoc", 7   # the ad-hoc setting Settings.modified creates for a name that is no setting ("Xk")
 
 # Settings whose values are *acted on* while a file is loaded (beyond their schema); valid-value tokens for them are
 # restricted to what the action accepts.  This restricts inputs only; see rep.assume in run().
@@ -394,6 +395,8 @@ class Gamma:
             return [self.old[m] for m in self.members["P"]]
         if n == "Zz":
             return list(self.unknown)
+        if n == "Xk":
+            return [ADHOC_NAME]
         return list(self.members[n])
 
     def describe(self):
@@ -450,7 +453,7 @@ class Adapter:
         for m, o in g.old.items():
             if o == realname:
                 return "Po"
-        return "Zz"
+        return "Xk" if realname == ADHOC_NAME else "Zz"
 
     def _regroup(self, w, content, order, bad_first=None):
         """re-emit the file with the entries grouped by abstract entry in the given abstract order (a user may reorder a
@@ -465,6 +468,18 @@ class Adapter:
             pairs += kv
         return _dump_entries(pairs)
 
+    @staticmethod
+    def _assign(cs, m, raw, k):
+        """the input forms of an assignment: Settings.__setitem__, and the live Setting (Settings.items()) through setValue
+        or the `value` property"""
+        form = (k + len(m)) % 3
+        if form == 0:
+            cs[m] = raw
+        elif form == 1:
+            dict(cs.items())[m].setValue(raw)
+        else:
+            dict(cs.items())[m].value = raw
+
     # -- actions ----------------------------------------------------------------------------------------------
     def apply(self, w, a):
         g = w.g
@@ -477,7 +492,7 @@ class Adapter:
             for m in g.members[a["s"]]:
                 if a["r"] == "d" and m in w.quarantine:
                     continue  # its default is not assignable (SettingSchema!DefaultAdmitted false; reported by run_laws)
-                cs[m] = g.raw(m, a["r"])
+                self._assign(cs, m, g.raw(m, a["r"]), g.k)
         elif n == "AssignBad":
             cs = w.cs[a["o"]]
             tried = 0
@@ -486,7 +501,7 @@ class Adapter:
                     continue
                 tried += 1
                 try:
-                    cs[m] = g.raw(m, "x")
+                    self._assign(cs, m, g.raw(m, "x"), g.k)
                     w.exc = "%s accepted %r" % (m, g.raw(m, "x"))
                 except Exception as ex:  # noqa: BLE001
                     w.err = "Invalid"
@@ -573,10 +588,27 @@ class Adapter:
                 if not bad:
                     raise
                 w.err = "Invalid"
+        elif n == "ModifiedObj":          # the Setting-object form: a detached Setting carrying the new value
+            cs = w.cs[a["o"]]
+            objs = {}
+            for m in g.members[a["s"]]:
+                if a["r"] == "d" and m in w.quarantine:
+                    continue
+                st = cs.getSetting(m)
+                st.setValue(g.raw(m, a["r"]))
+                objs[m] = st
+            w.cs[a["id"]] = cs.modified(newSettings=objs)
+        elif n == "ModifiedNewKey":       # the new-key form
+            w.cs[a["id"]] = w.cs[a["o"]].modified(newSettings={ADHOC_NAME: ADHOC_VALUE})
         elif n == "Duplicate":
             cs = w.cs[a["o"]]
             if a["kind"] == "duplicate":
                 new = cs.duplicate()
+            elif a["kind"] == "titled":       # the case-title form of modified(): the source keeps its own path
+                before = cs.path
+                new = cs.modified(caseTitle="c17copy")
+                if cs.path != before or new.caseTitle != "c17copy":
+                    w.err = "titled: source path %r -> %r, copy title %r" % (before, cs.path, new.caseTitle)
             elif a["kind"] == "deepcopy":
                 new = copy.deepcopy(cs)
             else:
@@ -694,14 +726,14 @@ class Adapter:
         if act is not None and act["n"] == "Read" and exp["err"] == "":
             content = set(_load_text(w.text).keys())
             got_inv = []
-            for ab in ("Po", "Zz"):
+            for ab in ("Po", "Xk", "Zz"):
                 names = [x for x in g.file_names(ab) if x in content]
                 hit = [x for x in names if x in w.inv]
                 if names and len(hit) == len(names):
                     got_inv.append(ab)
                 elif hit:
                     got_inv.append(ab + "?partial")
-            extra = [x for x in w.inv if self._abstract_of(w, x) not in ("Po", "Zz")]
+            extra = [x for x in w.inv if self._abstract_of(w, x) not in ("Po", "Xk", "Zz")]
             if extra:
                 got_inv.append("current:" + extra[0])
             if got_inv != list(exp["inv"]):
@@ -709,6 +741,12 @@ class Adapter:
         sh = self._shared(w)
         if sh != list(exp.get("shared", [])):
             return ".shared: objects share mutable state: %s" % sh[:3]
+        kd = self._kinds(w)
+        if kd != list(exp.get("kinds", [])):
+            return ".kinds: a copy holds a setting as another class than a fresh Settings object does: %s" % kd[:3]
+        has = [o for o in sorted(w.cs) if ADHOC_NAME in w.cs[o]]
+        if has != list(exp.get("extra", [])):
+            return ".extra: objects carrying the ad-hoc setting: expected %r, observed %r" % (exp.get("extra", []), has)
         return None
 
     def _check_file(self, w, ef):
@@ -725,6 +763,8 @@ class Adapter:
             for fname, m in zip(names, members):
                 if e["n"] == "Zz":
                     want[fname] = ("any", None)
+                elif e["n"] == "Xk":
+                    want[fname] = ("dump", ADHOC_VALUE)
                 elif e["t"] == "x":
                     if g.has_bad(m):
                         want[fname] = ("raw", gs.plain(g.raw(m, "x")))
@@ -751,6 +791,19 @@ class Adapter:
             if not gs.same(v, got) and not (kind == "raw" and v == got):
                 return ".file.value:%s: expected %r written, observed %r" % (k, v, got)
         return None
+
+    def _kinds(self, w):
+        """settings that some live object holds as an instance of another class than Settings() does (a copy that turns an
+        XSSettingDef into a plain Setting loses its dump and cannot be written any more)"""
+        if not hasattr(self, "_ref_kinds"):
+            self._ref_kinds = {n: type(st) for n, st in self.Settings().items()}
+        out = []
+        for o, cs in w.cs.items():
+            for name, st in cs.items():
+                want = self._ref_kinds.get(name)
+                if want is not None and type(st) is not want:
+                    out.append("%s(%d):%s" % (name, o, type(st).__name__))
+        return sorted(out)
 
     def _shared(self, w):
         """settings whose Setting object or a mutable part of whose value is the same object in two live Settings objects"""
@@ -854,6 +907,8 @@ def key_of(d, e, prefix="replay"):
     member = ""
     if lab == "ReadOld":
         return "%s:ReadOld" % prefix
+    if cat == "kinds":
+        return "%s:%s:kinds" % (prefix, lab)
     if lab != "ReadOld":
         m = re.match(r"^\.(?:val\[\d+\]\.\w+|file\.value):(\w+):", fd)
         if m:
@@ -888,13 +943,25 @@ def _fix_empty(st):
     st["file"]["es"] = _aslist(st["file"]["es"])
     st["inv"] = _aslist(st["inv"])
     st["shared"] = _aslist(st["shared"])
+    st["kinds"] = _aslist(st.get("kinds", []))
+    st["extra"] = _aslist(st.get("extra", []))
 
 
 def replay_edges(rep, ad, lib, graph, label, rng, size, max_edges=None, rounds=1, exclude=()):
     """every edge (s, a, t): path(s) ; a on fresh real objects, compared with t; one fresh instantiation per edge"""
     edges = list(graph.edges)
     if max_edges is not None and len(edges) > max_edges:
-        edges = rng.sample(edges, max_edges)
+        # a sample that keeps every kind of action represented: at least 20 edges per action name, the rest at random
+        by = collections.defaultdict(list)
+        for e in edges:
+            by[e["act"]["n"]].append(e)
+        pick = []
+        for name in sorted(by):
+            pick += rng.sample(by[name], min(20, len(by[name])))
+        chosen = {id(e) for e in pick}
+        rest = [e for e in edges if id(e) not in chosen]
+        pick += rng.sample(rest, max(0, min(len(rest), max_edges - len(pick))))
+        edges = pick
     n = nt = 0
     ndiv = 0
     with_r = any("R" in e["to"]["val"][0] for e in edges[:1])
@@ -965,6 +1032,23 @@ def run_sweep(rep, ad, lib, graph, rng, thorough, quarantine):
                 at = path[d["step"]]
                 rep.violation(key_of(d, at, "sweep"), "round trip of every setting (value #%d, %s style, %s API) diverges after %s: %s" % (
                     k, style, g.api, json.dumps(at["act"]), d["first_difference"]), dict(d, direction="sweep"))
+    # (a') the nested settings (cross-section control, tight coupling, cycle history), alone in a file: every admitted value
+    #      (among them the groups with falsy-but-set fields) in every style
+    nn = 0
+    nested = [m for m in lib.order if lib.entries[m]["name"] == "cycles" or (lib.entries[m]["hasCustom"] and lib.entries[m]["custom"]["k"] == "fn")]
+    for m in nested:
+        for k in range(len(lib.vals[m])):
+            for i, (style, tk, path) in enumerate(paths):
+                if tk != "ca":
+                    continue
+                g = Gamma(lib, rng, k=k, only={m}, with_r=False, api=("file", "stream")[(k + i) % 2])
+                d = run_checked(ad, g, path)
+                nn += 1
+                if d:
+                    at = path[d["step"]]
+                    rep.violation(key_of(d, at, "sweep"), "round trip of %s = %r (%s style, %s API) diverges after %s: %s" % (
+                        m, g.tok[m]["a"]["stored"], style, g.api, json.dumps(at["act"]), d["first_difference"]), dict(d, direction="sweep", setting=m))
+    rep.add_replay("sweep-nested", nn, nn, "crossSectionControl, tightCouplingSettings, cycles, flag lists: every admitted value x every style, alone in a file")
     if rep.samples is not None and paths:
         rep.sample({"kind": "sweep path", "acts": [e["act"] for e in paths[0][2]], "expected_final": paths[0][2][-1]["to"]})
     # (b) refusal on read, per setting
@@ -1069,7 +1153,7 @@ class Abstractor:
         if style != "hand" and not w.edited:
             # a file as the writer left it is sorted by real name; the specification lists its entries in the writer's
             # order of the abstract names (an order only matters once a user has arranged the file: edits, hand files)
-            seen.sort(key=lambda x: "PQRVZ".index(x) if x in "PQRVZ" else 9)
+            seen.sort(key=lambda x: "PQRVZ".index(x) if x in "PQRVZ" else 9)   # (the ad-hoc name sorts last in both)
         for ab in seen:
             names = g.file_names(ab)
             members = g.members["P"] if ab == "Po" else names
@@ -1079,6 +1163,9 @@ class Abstractor:
                 continue
             if ab == "Zz":
                 es.append({"n": ab, "t": "a"})
+                continue
+            if ab == "Xk":
+                es.append({"n": ab, "t": "d" if content[ADHOC_NAME] == ADHOC_VALUE else "?"})
                 continue
             fit = []
             for t in ("d", "a", "b"):
@@ -1126,17 +1213,17 @@ class Abstractor:
             inv = []
             if w.err == "":
                 content = set(_load_text(w.text).keys())
-                for ab in ("Po", "Zz"):
+                for ab in ("Po", "Xk", "Zz"):
                     names = [x for x in g.file_names(ab) if x in content]
                     hit = [x for x in names if x in w.inv]
                     if names and len(hit) == len(names):
                         inv.append(ab)
                     elif hit:
                         inv.append(ab + "?")
-                if any(self.ad._abstract_of(w, x) not in ("Po", "Zz") for x in w.inv):
+                if any(self.ad._abstract_of(w, x) not in ("Po", "Xk", "Zz") for x in w.inv):
                     inv.append("current?")
         return {"n": len(w.cs), "val": self.val(w), "file": f, "err": w.err if w.err in ("", "Invalid", "Nonexistent") else "?" + w.err[:40],
-                "inv": inv, "shared": self.ad._shared(w)}
+                "inv": inv, "shared": self.ad._shared(w), "kinds": self.ad._kinds(w), "extra": [o for o in sorted(w.cs) if ADHOC_NAME in w.cs[o]]}
 
 
 def trace_driver(ad, lib, hand_files, ntraces, nev, seed, exclude):
@@ -1179,15 +1266,18 @@ def _random_action(rng, st, hand_files, g):
     es = st["file"]["es"]
     o = rng.randrange(1, n + 1)
     kind = rng.choice(["Assign", "Assign", "Assign", "AssignBad", "AssignUnknown", "GetSet", "Revert", "Write", "Write", "Read", "Read",
-                       "SetBad", "SetOld", "AddUnknown", "HandWrite", "New", "Modified", "ModifiedBad", "Duplicate"])
+                       "SetBad", "SetOld", "AddUnknown", "HandWrite", "New", "Modified", "ModifiedObj", "ModifiedNewKey", "ModifiedBad",
+                       "Duplicate"])
 
     def raws(s):
         return ["d"] if s == "Z" else ["d", "a", "ca"] if s == "V" else ["d", "a", "b", "ca"]
 
-    if kind in ("Assign", "Modified"):
+    if kind == "ModifiedNewKey":
+        return {"n": kind, "o": o, "id": n + 1} if n < MAXOBJ_TRACE and o not in st["extra"] else None
+    if kind in ("Assign", "Modified", "ModifiedObj"):
         s = rng.choice(names)
         a = {"n": kind, "o": o, "s": s, "r": rng.choice(raws(s))}
-        if kind == "Modified":
+        if kind != "Assign":
             if n >= MAXOBJ_TRACE:
                 return None
             a["id"] = n + 1
@@ -1217,7 +1307,7 @@ def _random_action(rng, st, hand_files, g):
     if kind == "Read":
         return {"n": kind, "o": o} if st["file"]["style"] != "none" else None
     if kind == "SetBad":
-        cand = [i + 1 for i, e in enumerate(es) if e["t"] in ("d", "a", "b", "ca") and e["n"] != "Zz"
+        cand = [i + 1 for i, e in enumerate(es) if e["t"] in ("d", "a", "b", "ca") and e["n"] not in ("Zz", "Xk")
                 and any(g.has_bad(m) for m in (g.members["P"] if e["n"] == "Po" else g.members[e["n"]]))]
         return {"n": kind, "i": rng.choice(cand)} if cand else None
     if kind == "SetOld":
@@ -1231,7 +1321,7 @@ def _random_action(rng, st, hand_files, g):
     if kind == "New":
         return {"n": kind, "id": n + 1} if n < MAXOBJ_TRACE else None
     if kind == "Duplicate":
-        return {"n": kind, "o": o, "kind": rng.choice(["duplicate", "deepcopy", "pickle"]), "id": n + 1} if n < MAXOBJ_TRACE else None
+        return {"n": kind, "o": o, "kind": rng.choice(["duplicate", "deepcopy", "pickle", "titled"]), "id": n + 1} if n < MAXOBJ_TRACE else None
     return None
 
 
@@ -1275,10 +1365,12 @@ def run(rep, tier, seed):
             out.append(("SettingsCase_mc", cfg, tlc.run("SettingsCase_mc", cfg, MODDIR, workers=8 if thorough else 4, want_prints=False, timeout=3000)))
         return out
 
-    f_exh = pool.submit(exhaustive) if not _SELFTEST else None
+    f_exh = None
 
     # 2. SettingSchema over the catalog; every case on the real code; data laws; load hooks
     lib, cres, skipped = f_cat.result()
+    if not _SELFTEST:
+        f_exh = pool.submit(exhaustive)     # started once the catalog run (on the critical path) is through
     rep.add_tlc("cases:SettingSchema_cat.cfg", cres, {"settings": len(lib.order), "universe+extras per setting": "~95"})
     if skipped:
         rep.note("settings whose declaration could not be expressed (skipped, not judged): %s" % skipped)
@@ -1307,10 +1399,10 @@ def run(rep, tier, seed):
 
     t0 = _t.time()
     stages = rep.extra.setdefault("stage_wall_s", {})
-    n1 = replay_edges(rep, ad, lib, gio, "io-edges", rng, sizes[0], max_edges=3500 if thorough else (200 if _SELFTEST else 400), exclude=quarantine)
+    n1 = replay_edges(rep, ad, lib, gio, "io-edges", rng, sizes[0], max_edges=3500 if thorough else (200 if _SELFTEST else 330), exclude=quarantine)
     stages["io-edges"] = round(_t.time() - t0, 1)
     t0 = _t.time()
-    n2 = replay_edges(rep, ad, lib, gcopy, "copy-edges", rng, sizes[1], max_edges=4000 if thorough else (300 if _SELFTEST else 700), exclude=quarantine)
+    n2 = replay_edges(rep, ad, lib, gcopy, "copy-edges", rng, sizes[1], max_edges=4000 if thorough else (300 if _SELFTEST else 580), exclude=quarantine)
     stages["copy-edges"] = round(_t.time() - t0, 1)
     t0 = _t.time()
     if f_all is not None:
@@ -1591,6 +1683,29 @@ def selftest():
             self[k] = v
         return self.duplicate()
 
+    SS = "_Settings__settings"
+
+    def _modified_variant(obj_to_self=False, newkey_to_self=False, title_to_self=False):
+        def modified(self, caseTitle=None, newSettings=None):
+            new = self.duplicate()
+            if caseTitle:
+                (self if title_to_self else new).caseTitle = caseTitle
+            for key, val in (newSettings or {}).items():
+                if isinstance(val, S):
+                    getattr(self if obj_to_self else new, SS)[key] = copy.copy(val)
+                elif key in getattr(new, SS):
+                    getattr(new, SS)[key].setValue(val)
+                else:
+                    getattr(self if newkey_to_self else new, SS)[key] = S(key, val, description="Description from cs.modified()")
+            return new
+        return modified
+
+    def xs_serialize_drops_empty(self):
+        return {key: val for key, val in self if key != "xsID" and val not in (None, "", [])}
+
+    def xs_serialize_drops_falsy(self):
+        return {key: val for key, val in self if key != "xsID" and val}
+
     orig_pre = W._preprocessYaml
 
     def no_stamp(self, settingData):
@@ -1648,6 +1763,11 @@ def selftest():
         ("Setting.__copy__ shares the value object", lambda: P(S, "__copy__", copy_shares_value)),
         ("Settings.__setstate__ loses numeric values", lambda: P(CS, "__setstate__", setstate_defaults)),
         ("Settings.modified changes the original", lambda: P(CS, "modified", modified_in_place)),
+        ("seed 1: modified() stores a Setting-object change in the original", lambda: P(CS, "modified", _modified_variant(obj_to_self=True))),
+        ("Settings.modified: new-key form adds the setting to the original", lambda: P(CS, "modified", _modified_variant(newkey_to_self=True))),
+        ("Settings.modified: case-title form renames the original", lambda: P(CS, "modified", _modified_variant(title_to_self=True))),
+        ("seed 5: XSModelingOptions.serialize drops '' and [] fields", lambda: P(xss.XSModelingOptions, "serialize", xs_serialize_drops_empty)),
+        ("XSModelingOptions.serialize drops every falsy field", lambda: P(xss.XSModelingOptions, "serialize", xs_serialize_drops_falsy)),
         ("Settings.getSetting hands out the live Setting", lambda: P(CS, "getSetting", getsetting_live)),
         ("Settings.__setitem__ ignores unknown names", lambda: P(CS, "__setitem__", setitem_ignores_unknown)),
         ("FlagListSetting.dump returns Flags, not names", lambda: P(setting.FlagListSetting, "dump", flags_dump_raw)),
